@@ -24,7 +24,7 @@ Inductive gotype : Type :=
 | TyStruct (fs : list tfield)
 | TyMap (e : gotype)             (* map[string]e *)
 | TySlice (e : gotype)
-| TyArray (n : nat) (e : gotype)
+| TyArray (n : Z) (e : gotype)   (* [n]e *)
 | TyIface                        (* interface{} *)
 with tfield : Type :=
 | TField (name : bytes) (exported : bool) (tag : bytes) (jtag : option bytes) (anonymous : bool) (t : gotype).
@@ -194,7 +194,7 @@ Fixpoint zero (t : gotype) : goval :=
                   end) fs)
   | TyMap _ => GMap true []
   | TySlice _ => GSlice false []
-  | TyArray n e => GSlice false (repeat (zero e) n)
+  | TyArray n e => GSlice false (repeat (zero e) (Z.to_nat n))
   | TyIface => GNil
   end.
 
@@ -309,8 +309,8 @@ Fixpoint jdecode (fuel : nat) (t : gotype) (v : value) {struct fuel} : ures gova
       | TyArray len e =>
           match v with
           | VNil => UOk (zero t)
-          | VArr l => ubind (umap (jdecode n e) (firstn len l))
-                            (fun gs => UOk (GSlice false (gs ++ repeat (zero e) (len - length gs))))
+          | VArr l => ubind (umap (jdecode n e) (firstn (Z.to_nat len) l))
+                            (fun gs => UOk (GSlice false (gs ++ repeat (zero e) (Z.to_nat len - length gs))))
           | _ => UErr
           end
       | TyStruct fs =>
